@@ -3,6 +3,8 @@
 import json, sys
 
 EA = "E-A REPLICA-OPSEQ"
+EB = "E-B CTRL-BFS"
+EC = "E-C FS-CRASH"
 checks = {
  "C06": dict(engine=EA, design="§3 E-A, §4 C06",
    text="Explicit-state BFS over every operation sequence (writes of each shape, user/automatic snapshots, system-performed removals, mark-removed, reopen with preload, rebuild-style reload+UpdateLUNMap, revert) up to the stated depth on a real on-disk replica with hole punching on; in every reachable state every retained user snapshot is compared byte-for-byte with the reference model, both by an independent extent walk over the chain files and by copying the directory, reverting the copy with the real code and reading it.",
@@ -33,8 +35,42 @@ checks = {
    text="Explicit-state BFS over the replica's open/closed x mode x rebuilding state machine (close, open, set-mode RW/WO/junk, set-rebuilding, reload) with every Server operation attempted as an event in every reachable state: writes are acknowledged only when open and RW/WO, every I/O call on a closed replica fails, removal/replace/revision-counter updates are refused (state unchanged) unless RW, invalid modes and out-of-state rebuilding flags are refused.",
    note="Lenient reading recorded in evidence: a write refused in INIT mode has already written its data (Replica.WriteAt checks the mode afterwards); acknowledgements are compared, not side effects of refused writes. REST action gating is checked by E-E.",
    technique="explicit-state BFS with replay on the real replica.Server vs reference model"),
+
+ "C02": dict(engine=EB, design="§3 E-B, §4 C02",
+   text="Explicit-state BFS over controller histories on a real controller.Controller (real replicator/MultiWriterAt, real *remote.Remote backends): from the initial state and from four membership roots (3 RW, 2 RW+WO, 2 RW, 1 RW+WO) every sequence of add / rebuild-sync / verify / remove / monitor failure / node restart and writes, syncs, unmaps in which EVERY subset of the attached replicas fails the call; per operation: acknowledged (n==len and err==nil) implies applied by a strict majority of the attached writers, a failing replica is detached once the controller is quiescent and never called again, every replica in service holds every acknowledged write.",
+   note="Replica nodes are the sequential model eb/node.go behind the real REST client code; a failing call fails before it is applied. RF 1-3, depth 4 from roots / 6-7 from the initial state (thorough +2). Monitor wake-ups are drained after each event (C02 does not quantify over schedules).",
+   technique="explicit-state BFS with replay on the real controller, all failing subsets per I/O"),
+ "C03": dict(engine=EB, design="§3 E-B, §4 C03",
+   text="Explicit-state BFS over every order of membership and mode changes (start, add, verify, I/O error, monitor failure, removal, REST set-mode ERR/RW, snapshot failure, restart) interleaved with writes/syncs/unmaps for RF 1-5: a mutating call reaches a replica only if at least floor(RF/2)+1 replicas are RW (ground truth from the replica list), a call refused as read-only touches no replica, and in every quiescent state ReadOnly is exactly (RW < quorum).",
+   note="Model nodes; monitor wake-ups drained (the stale-cache window is C13/C18's subject). Quorum-type replicas outside the alphabet.",
+   technique="explicit-state BFS with replay on the real controller"),
+ "C04": dict(engine=EB, design="§3 E-B, §4 C04",
+   text="Explicit-state BFS with data-bearing nodes: writes while a replica is WO, rebuild-sync, verify (promotion), reads in which every subset of the RW readers fails, consecutive reads walking the round-robin cursor, REST ERR, removal, monitor failures (also with undelivered monitor wake-ups): a successful read was served by a node that is RW in the controller and on the node, returns the acknowledged image, fails only if every RW reader failed; promotion only with matching chains, equal revision counter and (after a completed sync) identical data.",
+   note="Model nodes hold real byte images; reader order is canonicalised between events (Go map order) and every cursor position is reached by consecutive reads.",
+   technique="explicit-state BFS with replay on the real controller, all failing reader subsets"),
+ "C05": dict(engine=EB, design="§3 E-B, §4 C05",
+   text="Explicit-state BFS in which faults (I/O error on any subset, monitor/ping failure, explicit removal) hit at every point of short workloads and are noticed in every order (monitor wake-ups are ordinary events that may be delayed past later operations, including the stale wake-up after a re-add): the operation in flight succeeds iff a strict majority of writers containing a RW replica applied it, failed replicas end up detached and receive no further call, survivors hold all acknowledged data, a detached replica returns only through add -> WO -> verify.",
+   note="Model nodes; the real monitorPing/rpc.Client error paths are engine E-D's subject. Up to 3 faults per path.",
+   technique="explicit-state BFS with replay on the real controller, fault point x failing subset x notice order"),
+ "C09": dict(engine=EB, design="§3 E-B, §4 C09",
+   text="Explicit-state BFS over registration histories for RF 1,2,3,5 with revision-count assignments drawn from {1,5,9} (ties, one replica registered as rebuilding), every order and repetition of registrations, failing start signals, leader unreachable at the next registration, Start by the signalled and by non-signalled replicas: at every SignalToAdd(start) a majority has registered and the target holds the highest revision count among registered, reachable, non-rebuilding replicas; a volume start is accepted only from the signalled replica.",
+   note="Model nodes. The replica side's register-until-action loop is represented by the node's pending action; Start with several addresses is outside the alphabet.",
+   technique="explicit-state BFS with replay on the real controller"),
+ "C13": dict(engine=EB, design="§3 E-B, §4 C13",
+   text="Explicit-state BFS over writes, volume snapshots with every failing subset, sticky set-checkpoint failures per replica, removal, monitor failure, delayed monitor wake-ups, add/sync/verify, REST ERR: a snapshot reaches a node only if all RF replicas are RW (ground truth), on success every replica still in service holds it with identical content, a recorded checkpoint implies RF RW replicas that all have it in their chain (as latest when recorded) and persisted it.",
+   note="Model nodes with byte images. RF 2-3.",
+   technique="explicit-state BFS with replay on the real controller"),
+ "C18": dict(engine=EB, design="§3 E-B, §4 C18",
+   text="Explicit-state BFS over every event kind including duplicates and unknown addresses (register, start by the wrong replica, add of an attached address, verify of any address, remove of unknown, REST ERR/RW, I/O with one failing subset, monitor failures and delayed wake-ups, restarts) with 3-4 node identities: in every quiescent state addresses are unique, at most RF data replicas, at most one WO, RWReplicaCount equals the RW entries, replica list and backend map agree, writer/reader index maps are exactly the non-ERR / RW backends; a detached backend never receives a call.",
+   note="Model nodes. Invariants are evaluated in quiescent states (no undelivered monitor wake-up); per-call oracles run always.",
+   technique="explicit-state BFS with replay on the real controller"),
+ "C08": dict(engine=EC, design="§3 E-C, §4 C08", level="fault_enumeration",
+   text="For every (pre-state, operation) pair of a bounded set, a ptrace tracer stops the real replica process at the entry of every file-system call of the operation: the directory as it is at each boundary is copied (= process death there), reopened with the real code and compared with the reference (chain before or after, acknowledged bytes, retained snapshots by revert-on-copy, revision counter); every single call is also made to fail with ENOSPC/EIO and the reported outcome is compared with the reopened state; the call trace of every successful operation is linted for directory fsync after namespace changes and synced metadata.",
+   note="Trusted: the tracer (tools/fstrace/fstrace.c), ext4. Power-loss reordering below the syscall boundary is covered only by the durability lint. Known findings (failure reported after the commit point, success after a failed final flush) are listed in known_findings.json.",
+   technique="exhaustive crash-point and single-fault enumeration at system-call granularity (ptrace)"),
 }
-planned = {}
+planned = {"C08": "check built (engine E-C) but still being made quiet on the unchanged tree: known findings not merged yet; will be claimed in the next revision"}
+HOLD = {"C08"}
 ALL = ["C%02d" % i for i in range(1, 20)]
 
 def main():
@@ -51,13 +87,17 @@ def main():
      "engines": [
        {"name": EA, "path": "harness/ea, harness/cmd/ea", "serves_properties": ["C01", "C06", "C10", "C11", "C12", "C16", "C17"],
         "kind_free_text": "explicit-state breadth-first search over operation sequences on a real on-disk replica.Server (worker processes replay path+event on a fresh replica), canonical-key deduplication, reference model oracle"},
+       {"name": EB, "path": "harness/eb, harness/cmd/eb", "serves_properties": ["C02", "C03", "C04", "C05", "C09", "C13", "C18"],
+        "kind_free_text": "explicit-state breadth-first search over controller events on a real controller.Controller with real *remote.Remote backends, scripted per-replica failures, harness-played monitor goroutines, model replica nodes behind the real REST clients"},
+       {"name": EC, "path": "harness/ec, harness/cmd/ec, tools/fstrace", "serves_properties": ["C08", "C10"],
+        "kind_free_text": "ptrace-driven enumeration of every file-system-call boundary (crash) and every single failing call of replica operations from bounded pre-states"},
      ],
      "checks": [],
      "not_applicable": [],
      "notes": "All instrumentation is generated at check time from /repo's working tree through go build -overlay; /repo only receives fix: commits (see known_findings.json).",
     }
     for pid in ALL:
-        if pid in checks:
+        if pid in checks and pid not in HOLD:
             c = checks[pid]
             m["checks"].append({
               "property_id": pid,
